@@ -1478,14 +1478,23 @@ fn main() {
             let heavy = (seed % 1000) % 8 == 0 && len >= 50;
             // development aid: VERIF_REG_ONLY=<flavour>/<regime> makes every run of that kind
             let only = std::env::var("VERIF_REG_ONLY").ok();
+            let mut done_heavy: Vec<&str> = Vec::new();
             for run in 0..runs {
-                let (mut fl, mut regime) = CYCLE[run % CYCLE.len()];
+                // consecutive driver processes (job number = seed % 1000) continue the cycle where the
+                // previous one stopped, so that short jobs together still cover every kind of run
+                let offset = (seed % 1000) as usize * runs;
+                let (mut fl, mut regime) = CYCLE[(offset + run) % CYCLE.len()];
                 if let Some((f, g)) = only.as_deref().and_then(|o| o.split_once('/')) {
                     if let Some(x) = CYCLE.iter().find(|x| x.0 == f && x.1 == g) {
                         (fl, regime) = *x;
                     }
                 }
-                let regime = if regime == "cap" && fl != "modules" && !heavy { "bucket" } else { regime };
+                // (each heavy run once per process)
+                let first = heavy && !done_heavy.contains(&fl);
+                let regime = if regime == "cap" && fl != "modules" && !first { "bucket" } else { regime };
+                if regime == "cap" && fl != "modules" {
+                    done_heavy.push(fl);
+                }
                 drive_run(&mut r, &mut t, fl, regime, len);
             }
             t.finish();
